@@ -22,7 +22,8 @@ VARIABLES l,        \* position in the trace
           cap0,     \* capacity hint of the instance
           stale,    \* T is older than the previous event (that event shipped no snapshot)
           gaps,     \* some event since reset shipped no snapshot: the peak population is unknown
-          every     \* the instance ships its snapshot with every n-th call (1 = always)
+          every,    \* the instance ships its snapshot with every n-th call (1 = always)
+          rpeak     \* peak population according to the reference (an upper bound of the physical peak)
 
 R == INSTANCE KeyExpRef
 
@@ -50,7 +51,7 @@ GrowthOK(TT, pk, c0) == Len(TT.nd) <= 4 * (pk + 1) + Max(c0, 8)
 Structure(TT, pk, c0) ==
   /\ V("WF", WellFormed(TT), "snapshot is not a valid red-black search tree")
   /\ V("POOL", PoolOK(TT), "slots are not partitioned into sentinel / tree / free list")
-  /\ (~gaps => V("GROWTH", GrowthOK(TT, pk, c0), <<"arena slots", Len(TT.nd), "peak stored", pk>>))
+  /\ V("GROWTH", GrowthOK(TT, IF gaps THEN Max(pk, rpeak) ELSE pk, c0), <<"arena slots", Len(TT.nd), "peak stored", IF gaps THEN Max(pk, rpeak) ELSE pk>>)
 
 \* refinement mapping on the snapshot: live physical entries = live reference entries
 Refines(TT, S, t) == RangeOK(TT) /\ R!LiveAt(Phys(TT), t) = R!LiveAt(S, t)
@@ -68,14 +69,14 @@ Outcome == Ev.out
 Bind == IF Has("snap") THEN FromSnap(Ev.snap) ELSE T
 
 StepReset ==
-  /\ ents' = {} /\ now' = 0 /\ peak' = 0 /\ cap0' = Ev.cap /\ stale' = FALSE /\ gaps' = FALSE /\ every' = IF Has("se") THEN Ev.se ELSE 1
+  /\ ents' = {} /\ now' = 0 /\ peak' = 0 /\ cap0' = Ev.cap /\ stale' = FALSE /\ gaps' = FALSE /\ every' = (IF Has("se") THEN Ev.se ELSE 1) /\ rpeak' = 0
   /\ hasSnap' = Has("snap")
   /\ T' = IF Has("snap") THEN FromSnap(Ev.snap) ELSE NoTree
   /\ (Has("snap") => Structure(T', 0, Ev.cap) /\ V("CLEARED", RangeOK(T') /\ Phys(T') = {}, "a new tree stores entries"))
 
 StepLoad ==
   /\ T' = FromSnap(Ev.snap)
-  /\ hasSnap' = TRUE /\ stale' = FALSE /\ gaps' = FALSE /\ every' = IF Has("se") THEN Ev.se ELSE 1
+  /\ hasSnap' = TRUE /\ stale' = FALSE /\ gaps' = FALSE /\ every' = (IF Has("se") THEN Ev.se ELSE 1) /\ rpeak' = 0
   /\ cap0' = Ev.cap
   /\ now' = Ev.now
   /\ ents' = IF RangeOK(T') THEN Phys(T') ELSE {}
@@ -168,12 +169,16 @@ StepOp ==
   /\ peak' = NewPeak /\ every' = every
   /\ DriftCheck
   \* binding: an instance that ships every snapshot must ship it with every call that returned
-  /\ (hasSnap /\ every = 1 /\ ~Has("snap") /\ Ev.op \notin {"export", "exportn"} /\ Ev.out \in {"ok", "unwound"}
+  /\ (hasSnap /\ every = 1 /\ ~Has("snap") /\ ~Has("arena") /\ Ev.op \notin {"export", "exportn"} /\ Ev.out \in {"ok", "unwound"}
         => Breach(<<"snapshot missing: the structural predicates are unbound", Ev.op>>))
   /\ CASE Outcome = "ok" -> OpOk
        [] Outcome = "unwound" -> OpUnwound
        [] OTHER -> /\ Unchanged     \* panic / aborted / timeout: no behaviour of the specification
                    /\ V("OUTCOME", FALSE, <<Ev.op, "ended with", Outcome, IF Has("msg") THEN Ev.msg ELSE "">>)
+  /\ rpeak' = Max(rpeak, Cardinality(ents'))
+  \* an arena too large to be shipped is reported by its size: judged against the reference's peak
+  /\ (Has("arena") => V("GROWTH", Ev.arena.slots <= 4 * (rpeak' + 1) + Max(cap0, 8),
+                            <<"arena slots", Ev.arena.slots, "peak population (reference)", rpeak'>>))
 
 Step ==
   /\ l <= Len(Rec)
@@ -181,11 +186,11 @@ Step ==
   /\ CASE Ev.ev = "reset" -> StepReset
        [] Ev.ev = "load"  -> StepLoad
        [] Ev.ev = "op"    -> StepOp
-       [] OTHER -> UNCHANGED <<ents, now, T, hasSnap, peak, cap0, stale, gaps, every>> /\ Breach(<<"unknown event", Ev.ev>>)
+       [] OTHER -> UNCHANGED <<ents, now, T, hasSnap, peak, cap0, stale, gaps, every, rpeak>> /\ Breach(<<"unknown event", Ev.ev>>)
 
-Init == l = 1 /\ ents = {} /\ now = 0 /\ T = NoTree /\ hasSnap = FALSE /\ peak = 0 /\ cap0 = 0 /\ stale = FALSE /\ gaps = FALSE /\ every = 1
+Init == l = 1 /\ ents = {} /\ now = 0 /\ T = NoTree /\ hasSnap = FALSE /\ peak = 0 /\ cap0 = 0 /\ stale = FALSE /\ gaps = FALSE /\ every = 1 /\ rpeak = 0
 
-Spec == Init /\ [][Step]_<<l, ents, now, T, hasSnap, peak, cap0, stale, gaps, every>>
+Spec == Init /\ [][Step]_<<l, ents, now, T, hasSnap, peak, cap0, stale, gaps, every, rpeak>>
 
 \* every event was consumed
 Accepted ==
